@@ -11,30 +11,62 @@ MANIFEST = dict(text="Theorems split_unsplit / url_components / wsgi_asgi_same /
              "query_update_is_set / query_remove_is_filter / query_roundtrip / repr_noninterference about the Gallina model of "
              "URL._build_url (scope and environ), urllib.parse.urlsplit/urlunsplit and the netloc accessors, URL.replace (netloc "
              "surgery), the query-parameter helpers and URL.__repr__ hold for every URL of the grammar "
-             "scheme://[user[:pw]@]host[:port]path[?q][#f]; the model is compared with the live baize.datastructures.URL and both "
-             "Request.url properties on all scheme x server x port x Host x path combinations, on every small text over the URL "
-             "delimiters, on grammar URLs with mutations, and on grammar URLs x subsets of components to replace.",
+             "scheme://[user[:pw]@]host[:port]path[?q][#f]; theorems redecode_roundtrip / redecode_only_renderings / "
+             "rendering_keeps_ascii / wsgi_asgi_same_unicode / url_components_unicode / invalid_utf8_is_400 / invalid_query_is_400 "
+             "(C18/Unicode.v) carry the request half to root paths, paths and query strings over all Unicode scalar values: the "
+             "environ a PEP 3333 gateway builds (UTF-8 bytes shown as Latin-1 text) and the scope an ASGI server builds (text, query "
+             "string as UTF-8 bytes) for one request give the same URL value with exactly the given components, the re-decoding "
+             "`.encode('latin1').decode('utf8')` inverts the gateway's rendering and accepts nothing else, and an environ path or a "
+             "query string (either interface) that is not UTF-8 is answered with 400. The model is compared with the live "
+             "baize.datastructures.URL and both Request.url properties on all scheme x server x port x Host x path combinations, on "
+             "Unicode texts through both gateways (every character of U+0080..U+00FF, combining, non-BMP, NFKC-sensitive, percent "
+             "signs, random scalar values), on raw environ / scope values incl. every kind of invalid UTF-8, on every small text "
+             "over the URL delimiters, on grammar URLs with mutations, and on grammar URLs x subsets of components to replace.",
         note="Modelled, not verified: CPython 3.12 urlsplit/urlunsplit/SplitResult accessors, ipaddress text parsing, "
-             "parse_qsl/quote_plus, repr(str) (transcribed; validated by the correspondence). Not modelled: NFKC netloc check, "
-             "non-ASCII lower-casing/printability, the Latin-1/UTF-8 re-decoding of the WSGI path (cases are valid UTF-8). "
-             "Known finding: a decoded path containing '?' or '#' is re-split.",
-        technique="Coq proof (split/unsplit round trip on the grammar, netloc surgery lemmas) + executable model/implementation correspondence",
+             "parse_qsl/quote_plus, repr(str) (transcribed; validated by the correspondence); CPython's UTF-8 codec (encoder "
+             "Lib/Utf8.v, strict decoder C04/Static.v, proved inverse to each other via C01's utf8_codec; that they are CPython's "
+             "is checked by the correspondence on every kind of invalid sequence); that urlsplit leaves code points >= 128 of a "
+             "path or query alone (NFKC applies to the netloc only). Not modelled: NFKC netloc check, non-ASCII "
+             "lower-casing, which code points >= 256 repr() escapes (request URLs: the harness checks repr == URL(repr(str)) itself). "
+             "Surrogates are excluded from 'text' (str.encode refuses them); a scope path holding one is passed through "
+             "(correspondence only). Known finding: a decoded path containing '?' or '#' is re-split.",
+        technique="Coq proof (split/unsplit round trip on the grammar, netloc surgery lemmas; UTF-8 codec round trip for the "
+                  "gateway renderings) + executable model/implementation correspondence",
         ref="5/C18")
 
 RULE = ("cases: (a) every scheme in {http,https,ws,wss} x server in {none,name,IPv4,IPv6 '::1',bracketed IPv6} x port in "
         "{default,other,None} x Host in {absent,name,name:port,name:default-port,[v6]:port,upper-case} x 10 root/path/query samples "
-        "(non-ASCII, '?'/'#' in the path, empty path), built from an environ and from a scope (exhaustive); (b) urlsplit/geturl/"
+        "(non-ASCII, '?'/'#' in the path, empty path), built from an environ and from a scope (exhaustive); (a') one abstract "
+        "Unicode request rendered for both gateways (environ: UTF-8 bytes as Latin-1 text; scope: text + UTF-8 query bytes): every "
+        "character of U+0080..U+00FF in root path, path and query; 49 samples (combining sequences, non-BMP incl. ZWJ / flag "
+        "sequences and U+10FFFF, the borders of the 2/3/4-byte forms, characters whose bytes show as C1 controls / NEL / NBSP in "
+        "the environ, U+2028, NFKC-sensitive fullwidth '?' '#' '/', percent signs) alone, in all three places under five "
+        "scheme/server/Host contexts, and in pairs; random texts over all scalar values; (a'') raw environ texts and raw scope "
+        "values: 35 kinds of invalid UTF-8 (lone continuation bytes, truncated sequences, overlong forms, encoded surrogates, "
+        "beyond U+10FFFF, bad continuation, Latin-1 text that never was UTF-8, characters above U+00FF) alone / after / before "
+        "valid text in SCRIPT_NAME, PATH_INFO, QUERY_STRING, against an unknown scheme or a bad Host header (order of the "
+        "failures), sequences cut by the SCRIPT_NAME/PATH_INFO border, every byte string of length <= 3 over 10 bytes where the "
+        "decoder's branches change, 4-byte forms, every single byte >= 0x80, renderings of random text damaged at one place; "
+        "scope query strings likewise, scope paths with a lone surrogate; (b) urlsplit/geturl/"
         "accessors/repr on every text of length <= n (quick 4, thorough 5) over 'a1:/?#@[]', bare and after 'http://', on literals, "
         "on random grammar URLs and on mutations of them; (c) grammar URLs x subsets of the 8 components (quick: singles, pairs and "
         "sampled subsets; thorough: all 256) x values incl. '@' ':' in passwords and None; URLs without host; values outside the "
         "grammar (correspondence only); (d) include/replace/remove_query_params on multi-value queries; (e) random passwords for "
-        "repr. non-trivial = Host header present or a port/IPv6 server or a '?#' path (a); a netloc is parsed (b); a netloc "
-        "component is replaced (c); the query changes (d); a non-empty password (e)")
+        "repr. non-trivial = Host header present or a port/IPv6 server or a '?#' path or non-ASCII text (a); a byte >= 0x80 in a "
+        "raw value (a''); a netloc is parsed (b); a netloc component is replaced (c); the query changes (d); a non-empty password (e)")
 TRUSTED = ["transcription of urllib.parse.urlsplit/urlunsplit/_NetlocResultMixinStr, ipaddress.ip_address, parse_qsl, quote_plus and "
-           "repr(str) of CPython 3.12 in C18/Model.v, validated by this correspondence (split / mutation / exhaustive-text cases)"]
-ASSUMPTIONS = ["the path, root path and query string of a request are valid UTF-8 (the model receives the decoded text)",
-               "non-ASCII text in a netloc is NFKC-stable and lower-case (cases use only e-acute, u-umlaut and a CJK ideograph); "
-               "code points >= 256 are printable",
+           "repr(str) of CPython 3.12 in C18/Model.v, validated by this correspondence (split / mutation / exhaustive-text cases)",
+           "the gateway renderings of C18/Unicode.v (environ_of: PEP 3333 bytes-as-Latin-1; scope_of: ASGI text + query bytes) are "
+           "the harness's make_environ / make_scope; CPython's UTF-8 and Latin-1 codecs as Lib/Utf8.v / C04/Static.v, validated by "
+           "the raw environ / scope cases",
+           "harness canonicalisation: for a request URL without password that holds a code point >= U+0100 CPython does not print, "
+           "the harness checks repr(url) == 'URL(%r)' % str(url) itself and hands on the model's rendering (model_repr)"]
+ASSUMPTIONS = ["root path, path and query string of a request are sequences of Unicode scalar values (no surrogates: str.encode "
+               "refuses them, no gateway can carry them as bytes); invalid UTF-8 in an environ or in a scope's query string is modelled "
+               "(400); a scope path with a lone surrogate is passed through (correspondence only)",
+               "non-ASCII text in a netloc is NFKC-stable and lower-case (cases use only e-acute, u-umlaut and a CJK ideograph; the "
+               "Unicode request cases keep root path + path empty or starting with a single '/'); "
+               "code points >= 256 are printable (split/replace cases; request cases: see the canonicalisation)",
                "replace(): the hostname argument is in netloc syntax (an IPv6 literal is bracketed), a user name holds none of "
                "':/?#[]', a password none of '/?#[]', a host name none of ':/?#[]@', a path is empty or starts with '/' and holds "
                "no '?#', a query holds no '#', a scheme is lower-case; no text holds TAB/CR/LF",
@@ -74,6 +106,172 @@ def req_cases():
                                ("http", ["fe80::1%eth0", [80]], None), ("HTTP", None, ["h"]),
                                ("http", ["example.org", [8080]], ["u:p@h:1"]), ("http", ["example.org", [80]], ["h:x"])]:
         yield ["req", scheme, server, hh, "", "/p", "q=1"]
+
+
+# ---- non-ASCII root paths, paths and query strings (C18/Unicode.v): the abstract text goes through both gateways
+
+# every one holds a character the two codecs, str.splitlines/strip, NFKC or the URL delimiters could trip over
+UNI_SAMPLES = [
+    "\u00e9", "\u00fc\u00df", "\u00ff", "\u0080", "\u0085", "\u00a0", "\u00ad",          # U+0080..U+00FF: Latin-1 and UTF-8 differ
+    "e\u0301", "a\u0308\u0323", "\u1100\u1161\u11a8", "\u0301",                          # combining sequences, a lone mark
+    "\U0001f600", "\U00010000", "\U000e01ef", "\U0010ffff", "\U0001f469\u200d\U0001f469\u200d\U0001f467",
+    "\U0001f1e9\U0001f1ea", "x\U0001f600y",                                                # non-BMP, ZWJ and flag sequences
+    "\u07ff", "\u0800", "\ud7ff", "\ue000", "\ufffd", "\uffff", "\u0100", "\u0145", "\u0141\u0142",  # length borders; C4 80, C5 85, C5 81 C5 82
+    "\u2028", "\u2029", "\u3000", "\u200b", "\ufeff",                                      # line/space characters beyond Latin-1
+    "\uff1f", "\uff03", "\uff0f", "\u2100", "\u2488", "\ufb01",                            # NFKC would make '?', '#', '/', 'a/c', '1.', 'fi'
+    "%", "%%", "%C3%A9", "%zz", "100%", "%e9\u00e9", "\u00e9%",                               # percent signs stay as they are
+    "\u4e2d\u6587", "\u0627\u0644", "\u05d0", "\u0e01\u0e34",
+]
+UNI_CONTEXTS = [("http", ["example.org", [80]], None), ("https", ["example.org", [443]], ["h.example:8443"]),
+                ("ws", None, ["h.example"]), ("wss", ["::1", [8000]], None), ("http", None, None)]
+
+
+def rand_scalar(rng):
+    r = rng.random()
+    if r < 0.25:
+        return rng.choice("abz/09-._~%=&+;:@ ")
+    if r < 0.45:
+        return chr(rng.randrange(0x80, 0x100))
+    if r < 0.6:
+        return chr(rng.randrange(0x100, 0x800))
+    if r < 0.8:
+        c = rng.randrange(0x800, 0x10000)
+        return chr(c if not 0xD800 <= c <= 0xDFFF else 0xFFFD)
+    if r < 0.9:
+        return chr(rng.randrange(0x10000, 0x110000))
+    return rng.choice(["e\u0301", "\U0001f600", "\u00e9", "\u0145", "\u2028", "\uff1f", "\uff03"])
+
+
+def rand_text(rng, lo=0, hi=6):
+    return "".join(rand_scalar(rng) for _ in range(rng.randrange(lo, hi + 1)))
+
+
+def rand_seg(rng, lo=0, hi=6):
+    """'/' + random text; the text does not start with '/' ('//' at the start of a URL without authority opens a netloc)"""
+    return "/" + rand_text(rng, lo, hi).lstrip("/")
+
+
+def rand_root(rng):
+    """'' or '/' + non-empty random text without '/' at either end (root path + path must not start with '//')"""
+    t = rand_text(rng, 0, 4).strip("/")
+    return "/" + t if t and rng.random() < 0.6 else ""
+
+
+def unicode_req_cases(tier, rng):
+    std = ("http", ["example.org", [80]], None)
+    # every character of U+0080..U+00FF in each of the three places (exhaustive)
+    for c in range(0x80, 0x100):
+        ch = chr(c)
+        yield ["req", std[0], std[1], std[2], "/" + ch, "/" + ch + "x", "k=" + ch]
+    # every sample in each place alone, and in all three at once under every context
+    for t in UNI_SAMPLES:
+        yield ["req", std[0], std[1], std[2], "/" + t, "/", ""]
+        yield ["req", std[0], std[1], std[2], "", "/" + t, ""]
+        yield ["req", std[0], std[1], std[2], "", "/", t]
+        yield ["req", std[0], std[1], std[2], "", "/a/" + t + "/b", "k=" + t + "&" + t + "=v"]
+        for scheme, server, hh in UNI_CONTEXTS:
+            yield ["req", scheme, server, hh, "/" + t, "/" + t + "/" + t, t + "=" + t]
+    # pairs of samples next to each other (a sequence must not merge with its neighbour)
+    for a in UNI_SAMPLES[:24]:
+        for b in UNI_SAMPLES[:24]:
+            yield ["req", std[0], std[1], std[2], "/" + a, b, a + b]
+    for _ in range(1500 if tier == "quick" else 20000):
+        scheme, server, hh = rng.choice(UNI_CONTEXTS)
+        root = rand_root(rng)
+        path = rng.choice(["", rand_seg(rng, 0, 6)])
+        yield ["req", scheme, server, hh, root, path, rand_text(rng, 0, 6)]
+
+
+# ---- raw environ texts / raw scope values: also what is the rendering of no text
+
+def B(*bs):
+    return "".join(chr(b) for b in bs)
+
+
+INVALID_UTF8 = [
+    B(0x80), B(0xBF), B(0x80, 0x80),                                              # lone continuation bytes
+    B(0xC3), B(0xE2, 0x82), B(0xE2), B(0xF0, 0x9F, 0x98), B(0xF0, 0x9F), B(0xF0),   # truncated sequences
+    B(0xC0, 0xAF), B(0xC1, 0xBF), B(0xC0, 0x80), B(0xE0, 0x80, 0xAF), B(0xE0, 0x9F, 0xBF),
+    B(0xF0, 0x80, 0x80, 0xAF), B(0xF0, 0x8F, 0xBF, 0xBF),                          # overlong forms ('/' and the largest)
+    B(0xED, 0xA0, 0x80), B(0xED, 0xBF, 0xBF), B(0xED, 0xA0, 0xBD, 0xED, 0xB8, 0x80),  # encoded surrogates (CESU-8 pair)
+    B(0xF4, 0x90, 0x80, 0x80), B(0xF5, 0x80, 0x80, 0x80), B(0xF8, 0x88, 0x80, 0x80, 0x80), B(0xFE), B(0xFF),  # beyond U+10FFFF
+    B(0xC3, 0x28), B(0xE2, 0x28, 0xA1), B(0xE2, 0x82, 0x28), B(0xF0, 0x28, 0x8C, 0xBC), B(0xF0, 0x9F, 0x98, 0x2F),
+    B(0xC3, 0xC3, 0xA9), B(0xE9), B(0xE9, 0x2F),                                   # Latin-1 text that was never UTF-8 ("é")
+    "\u20ac", "\u0100", "a\U0001f600",                                            # characters that are no byte
+]
+BORDER_UTF8 = [B(0xC2, 0x80), B(0xDF, 0xBF), B(0xE0, 0xA0, 0x80), B(0xED, 0x9F, 0xBF), B(0xEE, 0x80, 0x80), B(0xEF, 0xBF, 0xBF),
+               B(0xF0, 0x90, 0x80, 0x80), B(0xF4, 0x8F, 0xBF, 0xBF), B(0xC5, 0x85), B(0xC3, 0xA9), B(0xE2, 0x82, 0xAC)]
+BYTE_ALPHABET = [0x2F, 0x80, 0x9F, 0xA0, 0xBF, 0xC2, 0xE0, 0xED, 0xF0, 0xF4]
+ENV_STD = ("http", ["example.org", [80]], None)
+
+
+def env_cases(tier, rng):
+    sch, sv, hh = ENV_STD
+    for bad in INVALID_UTF8 + BORDER_UTF8:
+        for pre, post in (("", ""), ("/ok/", ""), ("", "/ok"), ("/\xc3\xa9", "\xc3\xa9")):
+            t = pre + bad + post
+            yield ["env", sch, sv, hh, "", "/" + t, ""]
+            yield ["env", sch, sv, hh, "/" + t, "/p", ""]
+            yield ["env", sch, sv, hh, "", "/p", "k=" + t]
+        # the order of the failures: an unknown scheme (KeyError) / a bad Host header against a bad path / query
+        yield ["env", "ftp", sv, None, "", "/" + bad, ""]
+        yield ["env", "ftp", sv, None, "", "/p", bad]
+        yield ["env", "ftp", sv, ["h"], "", "/p", bad]
+        yield ["env", "http", sv, ["[::1"], "", "/p", bad]
+        yield ["env", "http", sv, ["h:x"], "", "/" + bad, ""]
+    # a sequence cut by the SCRIPT_NAME / PATH_INFO border; each half alone is invalid
+    for whole in BORDER_UTF8 + [B(0xF0, 0x9F, 0x98, 0x80)]:
+        for i in range(1, len(whole)):
+            yield ["env", sch, sv, hh, "/" + whole[:i], whole[i:] + "/x", ""]
+            yield ["env", sch, sv, hh, "/r", "/" + whole[:i], whole[i:]]         # the query string does not complete a path
+    # the decoder on every byte string of length <= 3 over the bytes where its branches change, and 4-byte forms
+    for n in (1, 2, 3):
+        for bs in itertools.product(BYTE_ALPHABET, repeat=n):
+            yield ["env", sch, sv, hh, "", "/" + B(*bs), ""]
+    for lead in (0xF0, 0xF4):
+        for bs in itertools.product((0x80, 0x8F, 0x90, 0xBF), repeat=3):
+            yield ["env", sch, sv, hh, "", "/" + B(lead, *bs), ""]
+    for b in range(0x80, 0x100):
+        yield ["env", sch, sv, hh, "", "/" + chr(b), ""]
+        yield ["env", sch, sv, hh, "", "/", "q=" + chr(b)]
+    # renderings of random text, damaged at one place
+    for _ in range(1200 if tier == "quick" else 15000):
+        texts = [latin1_of_utf8(x) for x in (rand_root(rng), rand_seg(rng, 0, 5), rand_text(rng, 0, 5))]
+        k = rng.choice([j for j in range(3) if j == 2 or texts[j]])
+        t = texts[k]
+        i = rng.randrange(0 if k == 2 else 1, len(t) + 1)      # the leading '/' of a path stays (else the text runs into the netloc)
+        r = rng.random()
+        if r < 0.3 and t:
+            t = t[:i] + t[i + 1:]
+        elif r < 0.6:
+            t = t[:i] + chr(rng.choice(BYTE_ALPHABET + [0xC3, 0xA9, 0x3F, 0x23])) + t[i:]
+        elif r < 0.9 and t:
+            i = min(i, len(t) - 1)
+            if k == 2 or i > 0:
+                t = t[:i] + chr(ord(t[i]) ^ (1 << rng.randrange(8))) + t[i + 1:]
+        texts[k] = t
+        scheme, server, hh2 = rng.choice(UNI_CONTEXTS[:2] + [("ws", ["-", [1]], ["h.example"]), ("ftp", ["example.org", [21]], None)])
+        yield ["env", scheme, server, hh2] + texts
+
+
+def scp_cases(tier, rng):
+    for bad in INVALID_UTF8[:-3] + BORDER_UTF8:
+        for pre, post in (("", ""), ("k=", "&x=1")):
+            for scheme, server, hh in UNI_CONTEXTS + [("ftp", ["example.org", [21]], None), ("ftp", None, None)]:
+                yield ["scp", scheme, server, hh, "", "/p", pre + bad + post]
+        yield ["scp", "http", ["example.org", [80]], ["[::1"], "/\u00e9", "/p", bad]
+    for b in range(0x80, 0x100):
+        yield ["scp", "http", ["example.org", [80]], None, "", "/", "q=" + chr(b)]
+    # what only a scope can hold: a path with a lone surrogate (the server decoded leniently) is passed through
+    for t in ["\ud800", "a\udfffb", "\udcc3\udca9"]:
+        yield ["scp", "http", ["example.org", [80]], None, "/" + t, "/" + t, "k=v"]
+    for _ in range(400 if tier == "quick" else 5000):
+        scheme, server, hh = rng.choice(UNI_CONTEXTS)
+        q = latin1_of_utf8(rand_text(rng, 0, 5))
+        if q and rng.random() < 0.6:
+            i = rng.randrange(len(q))
+            q = q[:i] + chr(rng.choice(BYTE_ALPHABET + [0xC3, 0xA9])) + q[i + (rng.random() < 0.5):]
+        yield ["scp", scheme, server, hh, rand_root(rng), rand_seg(rng, 0, 4), q]
 
 
 SPLIT_LITERALS = [
@@ -266,6 +464,13 @@ def cases(tier, rng):
     yield from query_cases(tier, rng)
     for _ in range(1500 if tier == "quick" else 20000):
         yield "repr", ["split", grammar_url(rng, with_pw=True)]
+    # after everything else, so that the random cases above stay what they were
+    for c in unicode_req_cases(tier, rng):
+        yield "request-unicode", c
+    for c in env_cases(tier, rng):
+        yield "environ-raw", c
+    for c in scp_cases(tier, rng):
+        yield "scope-raw", c
 
 
 def search_cases(tier, rng, mism):
@@ -283,7 +488,29 @@ def opt(x):
     return None if x is None else [x]
 
 
-def url_obs(u):
+def model_printable(o):
+    """C18/Model.v printable: exact below U+0100, every code point from U+0100 on counts as printable"""
+    return not (o < 32 or 127 <= o < 161 or o == 173)
+
+
+def model_repr(s):
+    """repr(s) under the model's convention (C18/Model.v py_repr)"""
+    q = '"' if ("'" in s and '"' not in s) else "'"
+    out = [q]
+    for ch in s:
+        o = ord(ch)
+        if ch == q or ch == "\\":
+            out.append("\\" + ch)
+        elif ch in "\t\n\r":
+            out.append({"\t": "\\t", "\n": "\\n", "\r": "\\r"}[ch])
+        elif model_printable(o):
+            out.append(ch)
+        else:
+            out.append("\\x%02x" % o)
+    return "".join(out) + q
+
+
+def url_obs(u, request=False):
     c = u.components
     try:
         port = opt(u.port)
@@ -293,15 +520,40 @@ def url_obs(u):
         rp = [repr(u)]
     except Exception as e:
         rp = exc_tag(e)
+    if (request and len(rp) == 1 and not u.password and rp[0] == "URL(%r)" % str(u)
+            and any(ord(ch) >= 256 and not ch.isprintable() for ch in str(u))):
+        # Which code points from U+0100 on repr() escapes is CPython's Unicode table, not modelled.  For the URL of a
+        # request over arbitrary scalar values the harness has just checked itself that the repr is the repr of the
+        # text, and hands the model's rendering of that text on.
+        rp = ["URL(%s)" % model_repr(str(u))]
     return [str(u), [c.scheme, c.netloc, c.path, c.query, c.fragment], opt(u.username), opt(u.password), opt(u.hostname),
             port, rp]
 
 
-def guarded(f):
+def guarded(f, request=False):
     try:
-        return url_obs(f())
+        return url_obs(f(), request)
     except Exception as e:
         return exc_tag(e)
+
+
+def make_environ(scheme, name, port, hh, script_name, path_info, query_string):
+    import io
+    environ = {"REQUEST_METHOD": "GET", "SCRIPT_NAME": script_name, "PATH_INFO": path_info, "QUERY_STRING": query_string,
+               "SERVER_NAME": name, "SERVER_PORT": str(port), "SERVER_PROTOCOL": "HTTP/1.1", "wsgi.version": (1, 0),
+               "wsgi.url_scheme": scheme, "wsgi.input": io.BytesIO(b""), "wsgi.errors": io.StringIO(), "HTTP_ACCEPT": "*/*"}
+    if hh is not None:
+        environ["HTTP_HOST"] = hh
+    return environ
+
+
+def make_scope(scheme, sv, hh, root, path, query_bytes):
+    headers = [(b"accept", b"*/*")]
+    if hh is not None:
+        headers.append((b"host", hh.encode("latin-1")))
+    return {"type": "http", "asgi": {"version": "3.0"}, "http_version": "1.1", "method": "GET", "scheme": scheme,
+            "path": path, "raw_path": path.encode("utf8", "surrogatepass"), "root_path": root, "query_string": query_bytes,
+            "headers": headers, "server": sv, "client": ("127.0.0.1", 50000)}
 
 
 def latin1_of_utf8(s):
@@ -311,7 +563,7 @@ def latin1_of_utf8(s):
 def impl(case):
     from baize.datastructures import URL
     op = case[0]
-    if op == "req":
+    if op in ("req", "env", "scp"):
         from baize.asgi.requests import Request as AsgiRequest
         from baize.wsgi.requests import Request as WsgiRequest
         _, scheme, server, hh, root, path, query = case
@@ -320,12 +572,14 @@ def impl(case):
             sv = (server[0], server[1][0] if server[1] else None)
         else:
             sv = None
-        headers = [(b"accept", b"*/*")]
-        if hh is not None:
-            headers.append((b"host", hh.encode("latin-1")))
-        scope = {"type": "http", "asgi": {"version": "3.0"}, "http_version": "1.1", "method": "GET", "scheme": scheme,
-                 "path": path, "raw_path": path.encode("utf8"), "root_path": root, "query_string": query.encode("utf8"),
-                 "headers": headers, "server": sv, "client": ("127.0.0.1", 50000)}
+        if op in ("env", "scp"):
+            # raw gateway values: the three texts are what the environ / the scope holds (bytes as Latin-1 text)
+            if op == "env":
+                return [guarded(lambda: WsgiRequest(make_environ(scheme, sv[0], sv[1], hh, root, path, query)).url, True)]
+            return [guarded(lambda: AsgiRequest(make_scope(scheme, sv, hh, root, path, query.encode("latin-1"))).url, True)]
+        # one abstract request, rendered for each gateway: the scope holds the texts and the UTF-8 bytes of the query
+        # string, the environ the Latin-1 text of the UTF-8 bytes of all three (PEP 3333)
+        scope = make_scope(scheme, sv, hh, root, path, query.encode("utf8"))
         # the URL of a request must not depend on the requests this process answered before: the same server address is
         # first asked about under every other scheme (with and without a Host header), on both interfaces
         for other in ("http", "https", "ws", "wss"):
@@ -338,7 +592,7 @@ def impl(case):
                         if hdrs[0][0] == b"host":
                             e0["HTTP_HOST"] = "other.example:81"
                         guarded(lambda: WsgiRequest(e0).url)
-        asgi = guarded(lambda: AsgiRequest(scope).url)
+        asgi = guarded(lambda: AsgiRequest(scope).url, True)
         if sv is not None and sv[1] is not None:
             wsv = sv
         elif hh is not None:
@@ -348,14 +602,8 @@ def impl(case):
         if wsv is None:
             wsgi = ["n/a"]
         else:
-            import io
-            environ = {"REQUEST_METHOD": "GET", "SCRIPT_NAME": latin1_of_utf8(root), "PATH_INFO": latin1_of_utf8(path),
-                       "QUERY_STRING": latin1_of_utf8(query), "SERVER_NAME": wsv[0], "SERVER_PORT": str(wsv[1]),
-                       "SERVER_PROTOCOL": "HTTP/1.1", "wsgi.version": (1, 0), "wsgi.url_scheme": scheme,
-                       "wsgi.input": io.BytesIO(b""), "wsgi.errors": io.StringIO(), "HTTP_ACCEPT": "*/*"}
-            if hh is not None:
-                environ["HTTP_HOST"] = hh
-            wsgi = guarded(lambda: WsgiRequest(environ).url)
+            environ = make_environ(scheme, wsv[0], wsv[1], hh, latin1_of_utf8(root), latin1_of_utf8(path), latin1_of_utf8(query))
+            wsgi = guarded(lambda: WsgiRequest(environ).url, True)
         return [wsgi, asgi]
     text = case[1]
     try:
@@ -524,6 +772,46 @@ def oracle_req(case, obs):
     return None
 
 
+def strict_utf8(latin1_text):
+    """the text whose UTF-8 bytes the Latin-1 text shows, or None (PEP 3333: the environ holds bytes as Latin-1 text)"""
+    try:
+        return latin1_text.encode("latin-1").decode("utf-8", "strict")
+    except ValueError:
+        return None
+
+
+def oracle_raw(case, obs):
+    """raw environ texts / raw scope values: where they are the rendering of a text, the URL has exactly that text's
+    components (oracle_req); where they are not, the accessor answers 400"""
+    op, scheme, server, hh, a, b, q = case
+    got = obs[0]
+    if scheme not in DEFAULT and not hh and server:
+        return None                                   # the scheme table fails first: outside the property
+    query = strict_utf8(q)
+    if op == "env":
+        full = strict_utf8(a + b)
+        root, path = "", full
+    else:
+        root, path = a, b
+        full = a + b
+        if any(0xD800 <= ord(ch) <= 0xDFFF for ch in full):
+            return None                               # a lone surrogate in a scope path: no text a gateway could carry
+    if hh is not None:
+        m = _HOSTPORT.match(hh[0])
+        if not m or not host_ok(m.group(1)):
+            return None                               # a malformed Host header: 400 whatever the text
+    if full is None or query is None:
+        if got != ["exc", "HTTPException"]:
+            what = "SCRIPT_NAME+PATH_INFO %r" % (a + b) if full is None else "query string %r" % q
+            return ("url-invalid-utf8-not-400", "%s is not UTF-8, yet Request.url gave %r instead of 400" % (what, got))
+        return None
+    if full and not full.startswith("/"):
+        return None                                   # a path that does not start with '/' runs into the authority
+    if any(ch in "?#\t\r\n" for ch in full) or any(ch in "#\t\r\n" for ch in query):
+        return None                                   # damaged text may hold a delimiter: the known re-split, not this oracle's
+    return oracle_req(["req", scheme, server, hh, root, path, query], [["n/a"], got])
+
+
 def oracle_repr(o):
     """the printable representation never contains the password"""
     if o.repr_raises:
@@ -684,6 +972,8 @@ def oracle(case, obs):
         return ("driver-exception", str(obs))
     if op == "req":
         return oracle_req(case, obs)
+    if op in ("env", "scp"):
+        return oracle_raw(case, obs)
     if op == "split":
         return oracle_split(case, obs)
     if op == "replace":
@@ -697,7 +987,10 @@ def nontrivial(case, obs):
     op = case[0]
     if op == "req":
         _, scheme, server, hh, root, path, query = case
-        return bool(hh) or bool(server and (server[1] or ":" in server[0])) or "?" in root + path or "#" in root + path
+        return (bool(hh) or bool(server and (server[1] or ":" in server[0])) or "?" in root + path or "#" in root + path
+                or any(ord(ch) >= 128 for ch in root + path + query))
+    if op in ("env", "scp"):
+        return any(ord(ch) >= 128 for ch in case[4] + case[5] + case[6])          # the re-decoding has work to do
     if is_exc(obs[0]):
         return op == "split"
     o = Obs(obs[0])
@@ -710,18 +1003,22 @@ def nontrivial(case, obs):
 
 def shrink(case):
     op = case[0]
-    if op == "req":
+    if op in ("req", "env", "scp"):
         _, scheme, server, hh, root, path, query = case
         if query:
-            yield ["req", scheme, server, hh, root, path, ""]
+            yield [op, scheme, server, hh, root, path, ""]
         if root:
-            yield ["req", scheme, server, hh, "", path, query]
+            yield [op, scheme, server, hh, "", path, query]
         if path != "/":
-            yield ["req", scheme, server, hh, root, "/", query]
+            yield [op, scheme, server, hh, root, "/", query]
         if hh:
-            yield ["req", scheme, server, None, root, path, query]
+            yield [op, scheme, server, None, root, path, query]
         if scheme != "http":
-            yield ["req", "http", server, hh, root, path, query]
+            yield [op, "http", server, hh, root, path, query]
+        for k in (4, 5, 6):                      # one character less in one of the three texts
+            t = case[k]
+            for i in range(min(len(t), 32)):
+                yield case[:k] + [t[:i] + t[i + 1:]] + case[k + 1:]
         return
     text = case[1]
     if op != "split":
